@@ -348,6 +348,22 @@ func checkC04(c *Check) {
 	c.Rule("R5", "E1 guard-cut", "Apply sets field i only when it is settable, tagged `inject` (tag of the same field i) and a valid value of the field's type was found; an unresolved tagged field returns an error", 2)
 	if ap := p.Meth("inject", "injector", "Apply"); ap != nil {
 		key := p.FuncKey(ap)
+		// the value whose fields are visited has been dereferenced through EVERY pointer level: it is used
+		// only where its own Kind() == Ptr test has failed (reflect.Indirect removes one level only)
+		for _, nf := range callsNamed(ap, "(reflect.Value).NumField", "(reflect.Value).Field") {
+			x := nf.Common().Args[0]
+			const kindPtr = 22 // reflect.Ptr / reflect.Pointer
+			g := union(
+				edgesWhere(ap, cCmp(token.EQL, vCall("(reflect.Value).Kind", vIs(x)), vConstInt(kindPtr)), false),
+				edgesWhere(ap, cCmp(token.NEQ, vCall("(reflect.Value).Kind", vIs(x)), vConstInt(kindPtr)), true),
+			)
+			if okG, _ := guardedBy(ap, g, isInstr(nf)); okG && len(g) > 0 {
+				c.OK(key+":deref-all", p.Pos(nf.Pos()), "fields are visited on a value whose Kind() is known not to be Ptr (dereference loop)", 1)
+			} else {
+				c.Bad(key+":deref-all", p.Pos(nf.Pos()), "the struct whose tagged fields are filled is not reached through every pointer level (a loop `for v.Kind() == Ptr { v = v.Elem() }`): Apply(&p) with p already a pointer silently injects nothing and reports no missing dependency")
+			}
+			break
+		}
 		sets := callsNamed(ap, "(reflect.Value).Set")
 		if len(sets) != 1 {
 			c.Undecided(key+":set", p.FuncPos(ap), "expected exactly one reflect.Value.Set")
